@@ -78,7 +78,37 @@ func parsePublic(s string, opts ...grammar.Option) (val interface{}, err error, 
 	return
 }
 
+// lookalikes: other expression texts that anything remembering parses per
+// NORMALISED text would confuse with s - blanks collapsed everywhere (also
+// inside literals), tabs and line breaks as blanks, trimmed, lower-cased.
+func lookalikes(s string) []string {
+	var out []string
+	add := func(x string) {
+		if x != s && x != "" {
+			for _, y := range out {
+				if y == x {
+					return
+				}
+			}
+			out = append(out, x)
+		}
+	}
+	add(strings.Join(strings.Fields(s), " "))
+	add(strings.ToLower(s))
+	add(strings.TrimSpace(s))
+	return out
+}
+
+// createEval creates an evaluator. For a fixed eighth of the texts (by hash)
+// it first creates the text's look-alikes with the same options: a history
+// every check then runs under, so that process-wide state keyed by a
+// normalised text shows up as a wrong result in whatever the check compares.
 func createEval(s string, opts ...bexpr.Option) (ev *bexpr.Evaluator, err error, pan string, site string) {
+	if len(s) < 1500 && mon.Hash64(s)%8 == 0 {
+		for _, l := range lookalikes(s) {
+			mon.Try(func() { bexpr.CreateEvaluator(l, opts...) })
+		}
+	}
 	out := mon.Try(func() { ev, err = bexpr.CreateEvaluator(s, opts...) })
 	if out.Panic {
 		pan, site = out.PanicVal, mon.PanicSite(out.Stack)
